@@ -1,6 +1,7 @@
 (* pcp engine runner: I/O and conversions only.
-   case:   sink <check> <ydir> <preserve> <umask> <blksize> <cwd a/b/c in hex comps or .> <dest hex> <stream hex> <tree...>
+   case:   sink <check> <dirmode> <ydir> <preserve> <umask> <blksize> <cwd a/b/c in hex comps or .> <dest hex> <stream hex> <tree...>
    tree:   D <mode> <mtime|_> <namehex> <nchildren> child...   |   F <mode> <mtime|_> <namehex> <datahex>
+   case:   copy <check> <dirmode> <skip> <preserve> <reverse> <umask> <blksize> <client cwd> <names p,p,..> <suffix hex|_> <server cwd> <dest hex> <tree...>
    answer: OK <END|FAULT|FUEL> R=<A|E<k>,...> T=<op><0|1>:<path>,... REST=<bytes left on input> FS <tree> *)
 let z_of_string (s : string) : z =
   if s = "0" then Z0
@@ -61,10 +62,19 @@ let answer (w, r) =
 
 let handle (w : string list) : string =
   match w with
-  | "sink" :: chk :: ydir :: pres :: umask :: blk :: cwd :: dest :: stream :: tree ->
+  | "sink" :: chk :: dm :: ydir :: pres :: umask :: blk :: cwd :: dest :: stream :: tree ->
     let ((_, root), _) = parse_node tree in
     let cfg = { c_cwd = path_of_string cwd; c_dest = bytes_of_hex dest; c_ydir = (ydir = "1"); c_preserve = (pres = "1");
-                c_umask = n_of_int (int_of_string umask); c_blksize = n_of_int (int_of_string blk); c_check = (chk = "1") } in
+                c_umask = n_of_int (int_of_string umask); c_blksize = n_of_int (int_of_string blk); c_check = (chk = "1"); c_dirmode = (dm = "1") } in
     answer (sink cfg root (bytes_of_hex stream))
+  | "copy" :: chk :: dm :: skip :: pres :: rev :: umask :: blk :: ccwd :: names :: suffix :: scwd :: dest :: tree ->
+    (* names: comma-separated paths, each a/b/c in hex components *)
+    let ((_, root), _) = parse_node tree in
+    let nl = List.map path_of_string (String.split_on_char ',' names) in
+    let sfx = if suffix = "_" then None else Some (bytes_of_hex suffix) in
+    (match run_copy (chk = "1") (dm = "1") (skip = "1") (pres = "1") (rev = "1") (n_of_int (int_of_string umask)) (n_of_int (int_of_string blk))
+             (path_of_string ccwd) nl sfx (path_of_string scwd) (bytes_of_hex dest) root with
+     | None -> "NOSOURCE"
+     | Some r -> answer r)
   | _ -> "MODEL-BADCASE"
 let () = main_loop handle
